@@ -260,6 +260,9 @@ Proof.
         { destruct (olist s) eqn:O; [|reflexivity]. destruct (inv_ol _ _ I _ O); congruence. }
         split; [|destruct s; reflexivity]. destruct s; cbn in *; subst; inv_fields I.
     + split; [assumption|reflexivity].
+  - (* FailObj *)
+    intros H; inversion H; subst; clear H. unfold clean_olist.
+    split; [|destruct s; reflexivity]. destruct s; inv_fields I.
   - (* SetObj *)
     intros H; inversion H; subst; clear H.
     unfold obj_saved, clean_olist.
